@@ -174,6 +174,14 @@ def end_pairing(repo: Repo) -> RuleRun:
                     if ev.eval(call.func.value) is curve:
                         rec.append((call.func.attr, [ev.eval(a) for a in call.args]))
                         return [Sym("first"), Sym("inner1"), Sym("inner2"), Sym("last")] if call.func.attr == "discretize" else Sym("len")
+                last_ = (nm or "").split(".")[-1]
+                if last_ == "concatenate" and call.args:
+                    out_ = []
+                    for part in ev.eval(call.args[0]):
+                        out_.extend(part if isinstance(part, list) else [part])
+                    return out_
+                if last_ == "DiscreteCurve":
+                    return Obj("polyline", length=Sym("polyline-length-of-written-points"))
                 return NO_MATCH
 
             this = Obj("edge", cls=fn.cls)
@@ -183,7 +191,13 @@ def end_pairing(repo: Repo) -> RuleRun:
             data.set("curve", curve)
             data.set("n_points", 2)
             this.set("data", data)
-            res = _run(Evaluator(repo=repo, module=fn.module, call_hook=hook), fn, [this])
+            this.set("vertex_1", Obj("v1", position=Sym("P1")))
+            this.set("vertex_2", Obj("v2", position=Sym("P2")))
+            # the method is looked up on the class again: a removed override falls back to the base implementation
+            fn_now = repo.find_method(fn.cls, fn.name) or fn
+            res = _run(Evaluator(repo=repo, module=fn_now.module, call_hook=hook), fn_now, [this])
+            if fn.name == "length" and fn.cls is oce:
+                rec[:] = [c_ for c_ in rec if c_[0] == "get_length"]
             ok = len(rec) == 1 and list(rec[0][1][:2]) == [ps_v, pe_v]
             r.check(
                 ok,
@@ -489,4 +503,13 @@ def range_start(repo: Repo) -> RuleRun:
 
 range_start.rule_id = "C16.RANGE-START"
 
-RULES = [knot_dependence, end_pairing, interface, closest_param_search, stale_alias, none_tests, no_memo, bounds_respected, range_start]
+def no_stale_lazy_cache(repo: Repo) -> RuleRun:
+    """Knot parameters and interpolation functions follow the points: hand-written caches are reset by invalidate()."""
+    from ..memo import lazy_cache_rule
+
+    return lazy_cache_rule(repo, PROP, "C16.NO-STALE-CACHE", ('construct.curves',))
+
+
+no_stale_lazy_cache.rule_id = "C16.NO-STALE-CACHE"
+
+RULES = [knot_dependence, end_pairing, interface, closest_param_search, stale_alias, none_tests, no_memo, bounds_respected, range_start, no_stale_lazy_cache]
